@@ -180,3 +180,44 @@ fn mn_ingest_glue() {
     e3.extend(s[cut..].iter());
     assert!(same_m(&e1, &e0) && same_m(&e2, &e0) && same_m(&e3, &e0));
 }
+
+// C19: parallel-collection wiring for the macro-generated type (only compiled when the crate is built with
+// feature rayon, i.e. in the C19 job where `rayon` is the specification stub).
+#[cfg(feature = "rayon")]
+mod par_n {
+    use super::*;
+    use rayon::iter::{FromParallelIterator, Refs, Vals};
+
+    fn rec_add(s: &mut M, x: f64) {
+        s.n = s.n.wrapping_add(1);
+        s.avg = f64::from_bits((s.avg.to_bits().wrapping_add(x.to_bits() | 1)) & 0x000f_ffff_ffff_ffff);
+    }
+
+    fn rec_merge(s: &mut M, o: &M) {
+        s.n = s.n.wrapping_add(o.n);
+        s.avg = f64::from_bits((s.avg.to_bits().wrapping_add(o.avg.to_bits())) & 0x000f_ffff_ffff_ffff);
+    }
+
+    #[kani::proof]
+    #[kani::unwind(8)]
+    #[kani::stub(M::add, rec_add)]
+    #[kani::stub(<M as Merge>::merge, rec_merge)]
+    fn mn_par_wiring() {
+        let xs: [f64; 3] = kani::any();
+        let len: usize = kani::any();
+        kani::assume(len <= 3);
+        let a = M::from_par_iter(Vals { xs, len });
+        let r = M::from_par_iter(Refs { xs: &xs, len });
+        let mut n = 0u64;
+        let mut h = 0u64;
+        let mut i = 0;
+        while i < len {
+            n += 1;
+            h = h.wrapping_add(xs[i].to_bits() | 1) & 0x000f_ffff_ffff_ffff;
+            i += 1;
+        }
+        kani::cover!(len == 3);
+        assert!(a.n == n && a.avg.to_bits() == h);
+        assert!(r.n == n && r.avg.to_bits() == h);
+    }
+}
